@@ -145,10 +145,12 @@ def run(tier):
     evidence.write('C11', tier, runner.seed(), 'exploration', coverage, wall, nv,
                    ['from_strings is the constructor used (the three constructors share __init__/_validate; their equivalence is C18)'])
     print(f'C11 [{tier}] evaluations={n} violations={nv} known={nk} wall={wall:.1f}s')
+    if nv:
+        return 1
     if any(r['accepted'] == 0 or r['rejected'] == 0 for r in results):
         print('HARNESS-ERROR C11: one interpreter accepted nothing or rejected nothing')
         return 3
-    return 1 if nv else 0
+    return 0
 
 
 if __name__ == '__main__':
